@@ -287,6 +287,239 @@ def check_eft_accounting(r, repo, rule="R11.4"):
         r.ob(rule, f"{REL}::{fname} arm taken when the residual vanishes + residual == exact result", okz, detail or f"{n_arms} arm combination(s)", loc(REL, g))
 
 
+def check_fma_accounting(r, repo, rule="R11.5"):
+    """Emulated FMA (apmath.fma and apmath_algorithms.fma_real, algorithms a7 / a8 / a9, possibly_zero_z on and off).
+
+    The bodies are interpreted on exact polynomials with two_prod -> (p, x*y - p), two_sum / quick_two_sum -> (s, a + b - s)
+    (fresh atoms p, s; the recorded pairs are the error-free transformations of the trace).  With exact = x*y + z:
+      (i)  some arm of the result is exact, or differs from exact by the error word of the last 2Sum only (the word the
+           rounding decision is about) - a dropped, duplicated or mis-signed term breaks this;
+      (ii) an arm selected by a zero test `E == 0` is judged under the facts of that test (E an input: the input is zero; E the
+           error word of a 2Sum: that sum is exact; a 2Sum with a zero operand returns the other operand and a zero error):
+           the arm must then be exact, or be the high word of a recorded error-free pair whose low word is exactly the
+           remainder - i.e. the correctly rounded value by the kernel's contract.  A shortcut taken under a test that does
+           not imply this (seed C11d: `sl == 0` instead of `z == 0`) drops a word that matters.
+    The rounding decisions themselves (9/8, 7/8, 3/2 multipliers) and the ULP bound are not decided."""
+    from fractions import Fraction
+    from sa.absint import Interp, Closure, Unsupported as IUnsupported, PyRaise
+    from rules.C12 import Poly
+
+    class Cond:
+        __absint_host__ = True
+
+        def __init__(self, op, a, b):
+            self.op, self.a, self.b = op, a, b
+
+    def _c(op):
+        def f(self, o):
+            return Cond(op, self, o)
+        return f
+
+    class RV(Poly):
+        __absint_host__ = True
+        __eq__, __ne__, __lt__, __le__, __gt__, __ge__ = _c("=="), _c("!="), _c("<"), _c("<="), _c(">"), _c(">=")
+
+        def __hash__(self):
+            return id(self)
+
+    class Sel:
+        __absint_host__ = True
+
+        def __init__(self, c, a, b):
+            self.c, self.a, self.b = c, a, b
+
+        def _arith(self, other, f):
+            if isinstance(other, Sel) and other.c is self.c:
+                return Sel(self.c, f(self.a, other.a), f(self.b, other.b))
+            return Sel(self.c, f(self.a, other), f(self.b, other))
+
+        def __add__(self, o):
+            return self._arith(o, lambda u, v: u + v)
+
+        __radd__ = __add__
+
+        def __sub__(self, o):
+            return self._arith(o, lambda u, v: u - v)
+
+        def __rsub__(self, o):
+            return self._arith(o, lambda u, v: v - u)
+
+        def __mul__(self, o):
+            return self._arith(o, lambda u, v: u * v)
+
+        __rmul__ = __mul__
+
+        def __neg__(self):
+            return Sel(self.c, -self.a, -self.b)
+
+        __eq__, __ne__, __lt__, __le__, __gt__, __ge__ = _c("=="), _c("!="), _c("<"), _c("<="), _c(">"), _c(">=")
+
+        def __hash__(self):
+            return id(self)
+
+    def _wrap(name):
+        base = getattr(Poly, name)
+
+        def f(self, *a):
+            if a and isinstance(a[0], Sel):
+                return NotImplemented
+            out = base(self, *a)
+            return RV(out.t) if isinstance(out, Poly) and not isinstance(out, RV) else out
+        return f
+
+    for _n in ("__add__", "__radd__", "__sub__", "__rsub__", "__mul__", "__rmul__", "__neg__", "__truediv__"):
+        setattr(RV, _n, _wrap(_n))
+
+    def rv(p_):
+        return p_ if isinstance(p_, (RV, Sel)) else RV(p_.t)
+
+    def A(name):
+        return RV({(name,): Fraction(1)})
+
+    class Ctx:
+        __absint_host__ = True
+
+        def select(self, c, a, b):
+            return Sel(c, a, b)
+
+        def constant(self, v, like=None):
+            return v if isinstance(v, (RV, Sel)) else RV({(): Fraction(v)})
+
+        def logical_or(self, a, b):
+            return Cond("or", a, b)
+
+        def logical_and(self, a, b):
+            return Cond("and", a, b)
+
+        def logical_not(self, a):
+            return Cond("not", a, None)
+
+        def _assume_same_dtype(self, *a):
+            return None
+
+    class _Dtype:
+        __absint_host__ = True
+
+    def subst(p_, sub):
+        """substitute atoms by polynomials"""
+        out = Poly.const(0)
+        for mon, cf in p_.t.items():
+            term = Poly.const(cf)
+            for a_ in mon:
+                term = term * (sub[a_] if a_ in sub else Poly.atom(a_))
+            out = out + term
+        return out
+
+    FPA = "floating_point_algorithms.py"
+    sites = [("apmath_algorithms.py", "fma_real", False), ("apmath.py", "fma", True)]
+    n_checked = 0
+    for rel, fname, has_dtype in sites:
+        g = repo.func(rel, fname)
+        for algorithm in ("a7", "a8", "a9"):
+            for pzz in (True, False):
+                pairs = []  # (kind, hi atom name, lo polynomial, operands)
+                cnt = [0]
+
+                def two_sum(ctx, a, b, *rest, **kw):
+                    cnt[0] += 1
+                    if isinstance(a, Sel) or isinstance(b, Sel):
+                        raise AnalysisError(f"{rel}::{fname}[{algorithm}]: 2Sum of a selected value is not modelled")
+                    s_ = A(f"s{cnt[0]}")
+                    lo = rv(a + b - s_)
+                    pairs.append(("sum", f"s{cnt[0]}", lo, (a, b)))
+                    return (s_, lo)
+
+                def two_prod(ctx, x_, y_, *rest, **kw):
+                    cnt[0] += 1
+                    p_ = A(f"p{cnt[0]}")
+                    lo = rv(x_ * y_ - p_)
+                    pairs.append(("prod", f"p{cnt[0]}", lo, (x_, y_)))
+                    return (p_, lo)
+
+                I = Interp(repo)
+                for nm, impl in (("two_sum", two_sum), ("quick_two_sum", two_sum), ("two_prod", two_prod)):
+                    I.globals_cache[("apmath.py", nm)] = impl
+                for nm in ("is_power_of_two", "is_one_or_three_times_power_of_two"):
+                    I.globals_cache[(FPA, nm)] = (lambda *a, **k: Cond("pow2", a[1], None))
+                x, y, z = A("x"), A("y"), A("z")
+                args = [Ctx()] + ([_Dtype()] if has_dtype else []) + [x, y, z]
+                key = f"{rel}::{fname}[{algorithm}, possibly_zero_z={pzz}]"
+                try:
+                    out = I.call(Closure(g, {}, I, rel, bound_self=None), args, dict(algorithm=algorithm, possibly_zero_z=pzz))
+                except (IUnsupported, PyRaise, TypeError) as e:
+                    raise AnalysisError(f"{key} is not interpretable on exact polynomials: {getattr(e, 'what', e)}")
+                exact = x * y + z
+                leaves = []
+
+                def walk(v, path):
+                    if isinstance(v, Sel):
+                        walk(v.a, path + [(v.c, True)])
+                        walk(v.b, path + [(v.c, False)])
+                    else:
+                        leaves.append((path, v))
+
+                walk(out, [])
+                if not leaves or not all(isinstance(l, Poly) for _, l in leaves):
+                    raise AnalysisError(f"{key}: result is not a selection tree of polynomials")
+                last_sum = [pr for pr in pairs if pr[0] == "sum"][-1] if any(pr[0] == "sum" for pr in pairs) else None
+                # (i) full-precision arm
+                ok_i = False
+                for _, l in leaves:
+                    d = Poly(dict((exact - l).t))
+                    if not d.t or (last_sum is not None and Poly.__eq__(d, Poly(dict(last_sum[2].t)))):
+                        ok_i = True
+                worst = min((Poly(dict((exact - l).t)) for _, l in leaves), key=lambda d: len(d.t))
+                r.ob(rule, f"{key} accounts for every word", ok_i,
+                     f"no arm of the result equals x*y + z up to the error word of the last 2Sum; the closest arm leaves `{worst!r}`", loc(rel, g))
+                n_checked += 1
+                # (ii) arms selected by a zero test
+                for path, l in leaves:
+                    zt = [(c, pol) for c, pol in path if isinstance(c, Cond) and c.op == "==" and isinstance(c.b, (int, float)) and c.b == 0 and pol]
+                    if not zt:
+                        continue
+                    sub = {}
+                    described = []
+                    for c, _ in zt:
+                        E = c.a
+                        if not isinstance(E, Poly):
+                            continue
+                        if len(E.t) == 1 and list(E.t.values()) == [1] and len(next(iter(E.t))) == 1:
+                            sub[next(iter(E.t))[0]] = Poly.const(0)
+                            described.append(f"{next(iter(E.t))[0]} == 0")
+                        else:
+                            for kind, hi, lo, ops in pairs:
+                                if kind == "sum" and Poly.__eq__(Poly(dict(lo.t)), Poly(dict(E.t))):
+                                    sub[hi] = Poly(dict(ops[0].t)) + Poly(dict(ops[1].t))
+                                    described.append(f"the 2Sum {hi} is exact")
+                    # a 2Sum with a zero operand returns the other operand
+                    for _ in range(len(pairs) + 1):
+                        for kind, hi, lo, ops in pairs:
+                            if kind == "sum" and hi not in sub:
+                                a_, b_ = subst(Poly(dict(ops[0].t)), sub), subst(Poly(dict(ops[1].t)), sub)
+                                if not a_.t:
+                                    sub[hi] = b_
+                                elif not b_.t:
+                                    sub[hi] = a_
+                        # substitutions may mention substituted atoms
+                        sub = {k: subst(v, {kk: vv for kk, vv in sub.items() if kk != k}) for k, v in sub.items()}
+                    l2, e2 = subst(Poly(dict(l.t)), sub), subst(Poly(dict(exact.t)), sub)
+                    d = e2 - l2
+                    ok = not d.t
+                    if not ok:
+                        for kind, hi, lo, ops in pairs:
+                            h2, lo2 = subst(Poly.atom(hi), sub), subst(Poly(dict(lo.t)), sub)
+                            if Poly.__eq__(h2, l2) and Poly.__eq__(lo2, d):
+                                ok = True
+                    n_checked += 1
+                    r.ob(rule, f"{key} arm under [{' and '.join(described) or 'a zero test'}]", ok,
+                         f"under these facts the arm is `{l2!r}` and x*y + z is `{e2!r}`: the remainder `{d!r}` is neither zero nor the error word of an "
+                         "error-free transformation whose high word is the arm, so the arm is not the correctly rounded result - the shortcut "
+                         "drops a word that matters (e.g. when z cancels the product)", loc(rel, g))
+    if n_checked < 12:
+        raise AnalysisError(f"emulated FMA: only {n_checked} obligations recognised")
+
+
+
 def run(repo, tier):
     r = Report("C11", tier, repo, level="other", design_ref="§3/C11")
     r.explanation = (
@@ -300,6 +533,7 @@ def run(repo, tier):
     r.rule("R11.1", "P/Q constants equal 2^(p-1)+1 / 2^(p-1) (resp. 2^(p-2)+1 / 2^(p-2)) at every definition site and in the docstrings", floor=12)
     r.rule("R11.2", "next(): the multiplier constant is 1 - 2^-p with p the precision of the dtype; direction of the step", floor=4)
     r.rule("R11.4", "3Sum is an exact decomposition and the rounded compound operations account for every error term: under exact-arithmetic semantics with 2Sum / Dekker contracts, s + e + t == x + y + z and (arm taken when the residual vanishes) + residual == exact result", floor=5)
+    r.rule("R11.5", "emulated FMA (a7, a8, a9; both copies): an arm of the result accounts for every word of x*y + z, and an arm selected by a zero test is exact or the high word of an error-free pair under the facts of that test", floor=12)
     r.rule("R11.3", "the emulated FMA variants call two_prod with fix_overflow, and that guard is the sign-symmetric |xh*yh| > largest fallback", floor=2)
 
     want = {"Q": lambda p: 2 ** (p - 1), "P": lambda p: 2 ** (p - 1) + 1}
@@ -420,6 +654,7 @@ def run(repo, tier):
         raise AnalysisError("no two_prod(..., fix_overflow=...) call found in the fma implementations")
 
     check_eft_accounting(r, repo)
+    check_fma_accounting(r, repo)
     # ---- R11.2 next(): the multiplier is whatever name the select arms multiply/divide x by
     nx = repo.func(REL, "next")
     ret = [n for n in ast.walk(nx) if isinstance(n, ast.Return)][0]
